@@ -49,8 +49,11 @@ impl Rt {
 /// an argument expression of a native call, and the evaluator on it (deterministic)
 pub struct XExpr { pub id: Ghost<int> }
 pub uninterp spec fn ev(e: XExpr) -> RuntimeResult<EvaluatedValue>;
+/// (R-state: `st` is the ghost log of the argument expressions evaluated so far)
 #[verifier::external_body]
-pub fn eval(e: &XExpr, ns: &Ns, rt: &Rt) -> (r: RuntimeResult<EvaluatedValue>) ensures r == ev(*e) { unimplemented!() }
+pub fn eval(e: &XExpr, ns: &Ns, rt: &Rt, st: &mut Ghost<Seq<XExpr>>) -> (r: RuntimeResult<EvaluatedValue>)
+    ensures r == ev(*e), final(st)@ == old(st)@.push(*e),
+{ unimplemented!() }
 #[verifier::external_body]
 pub fn vx_panic<X>() -> (r: X) requires false { unimplemented!() }
 macro_rules! unreachable { () => { vx_panic() } }
@@ -253,6 +256,36 @@ pub proof fn lemma_first(ef: XValue, key: Val, ks: Seq<Val>, n: int) -> (k0: int
         let k1 = lemma_first(ef, key, ks, n - 1);
         if k1 < n - 1 { k1 } else if is_false(eq_ans(ef, key, ks[n - 1])) { n } else { n - 1 }
     }
+}
+
+/// locate's postcondition determines its answer: two answers are both error values, or the same location
+broadcast proof fn lemma_locate_unique<V>(s: XMapping<V>, x: Val, x1: Result<KeyLocation, ErrV>, x2: Result<KeyLocation, ErrV>)
+    requires
+        fn_answers_int(s.hash_func.value), fn_answers_bool(s.eq_func.value),
+        #[trigger] locate_post(s, x, Ok::<Result<KeyLocation, ErrV>, RuntimeViolation>(x1)),
+        #[trigger] locate_post(s, x, Ok::<Result<KeyLocation, ErrV>, RuntimeViolation>(x2)),
+    ensures x1 is Ok == x2 is Ok, x1 is Ok ==> x1 == x2,
+{
+    let r1 = Ok::<Result<KeyLocation, ErrV>, RuntimeViolation>(x1);
+    let r2 = Ok::<Result<KeyLocation, ErrV>, RuntimeViolation>(x2);
+    assert(r1->Ok_0 == x1 && r2->Ok_0 == x2);
+    if hash_ans(s.hash_func.value, x) is Ok {
+        let hv = hash_ans(s.hash_func.value, x)->Ok_0;
+        if 0 <= hv.value->Int_0.val() <= u64::MAX {
+            let h = hv.value->Int_0.val() as u64;
+            if s.inner@.contains_key(h) {
+                let ef = s.eq_func.value;
+                let ks = keys(s.inner@[h]@);
+                assert(scan_result(r1, ef, x, ks, h));
+                assert(scan_result(r2, ef, x, ks, h));
+                let k0 = lemma_first(ef, x, ks, ks.len() as int);
+            }
+        }
+    }
+}
+/// the key can be found: locate's postcondition admits a Found answer
+spec fn findable<V>(s: XMapping<V>, x: Val) -> bool {
+    exists|h: u64, i: usize| #[trigger] locate_post(s, x, Ok::<Result<KeyLocation, ErrV>, RuntimeViolation>(Ok(KeyLocation::Found((h, i)))))
 }
 
 // @@INCLUDE stdx@@
